@@ -292,6 +292,11 @@ func RunEngine(t *testing.T) {
 				res.Completed = false
 				flush()
 				fmt.Fprintf(os.Stderr, "VERIF-HANG index=%d\n", idx)
+				if os.Getenv("VERIF_HANGDUMP") != "" {
+					buf := make([]byte, 16<<20)
+					n := runtime.Stack(buf, true)
+					os.Stderr.Write(buf[:n])
+				}
 				os.Exit(75)
 			}
 		}
